@@ -1343,44 +1343,128 @@ impl LineBuf {
 	///
 	/// A sentence is defined as a "sequence of characters with punctuation at the end, followed by any number of closing delimiters, followed by whitespace, which is itself followed by non-whitespace"
 	/// Thanks vim!
-	pub fn text_obj_sentence(&mut self, start_pos: usize, count: usize, bound: Bound) -> Option<(usize, usize)> {
-		let mut start = None;
-		let mut end = None;
-		let mut fwd_indices = (start_pos..self.cursor.max).peekable();
-		while let Some(idx) = fwd_indices.next() {
-			if self.grapheme_at(idx).is_none() { break }
-
-			if let Some(next_sentence_start) = self.next_sentence_start_from_punctuation(idx) {
-				match bound {
-					Bound::Inside => {
-						end = Some(idx);
-						break
+	/// Where sentences start, in order. A sentence ends at '.', '!' or '?' (with any closing ')', ']',
+	/// '"', '\'' after it) followed by a blank or the end of the line; the next one starts at the next
+	/// character that is not blank. An empty line is a sentence of its own, and the text after empty
+	/// lines starts a new one.
+	pub fn sentence_starts(&mut self) -> Vec<usize> {
+		let len = self.cursor.max;
+		let is_blank = |gr: Option<&str>| gr.is_some_and(|gr| gr == " " || gr == "\t");
+		let mut starts = vec![];
+		// the first sentence starts with the buffer, blanks included
+		if len > 0 {
+			starts.push(0);
+		}
+		let mut i = 0;
+		while i < len {
+			let gr = self.grapheme_at(i).unwrap_or_default().to_string();
+			let line_start = i == 0 || self.grapheme_at(i - 1) == Some("\n");
+			if gr == "\n" && line_start {
+				// an empty line: the first one of a run is a sentence, the text after the run starts another
+				if i == 0 || (i >= 2 && self.grapheme_at(i - 2) != Some("\n")) {
+					starts.push(i);
+				}
+				let mut k = i;
+				while self.grapheme_at(k) == Some("\n") {
+					k += 1;
+				}
+				while is_blank(self.grapheme_at(k)) {
+					k += 1;
+				}
+				if k < len && self.grapheme_at(k) != Some("\n") {
+					starts.push(k);
+				}
+			} else if PUNCTUATION.contains(&gr.as_str()) {
+				let mut j = i + 1;
+				while self.grapheme_at(j).is_some_and(|gr| [")","]","\"","'"].contains(&gr)) {
+					j += 1;
+				}
+				let ends_sentence = self.grapheme_at(j).is_none_or(|gr| gr == " " || gr == "\t" || gr == "\n");
+				if ends_sentence {
+					let mut k = j;
+					loop {
+						match self.grapheme_at(k) {
+							Some(" ") | Some("\t") => k += 1,
+							Some("\n") => {
+								k += 1;
+								if self.grapheme_at(k) == Some("\n") {
+									// an empty line follows: it is the next sentence
+									break
+								}
+							}
+							_ => break
+						}
 					}
-					Bound::Around => {
-						end = Some(next_sentence_start);
-						break
+					if k < len {
+						starts.push(k);
 					}
 				}
 			}
+			i += 1;
 		}
-		let mut end = end.unwrap_or(self.cursor.max);
-
-		let mut bkwd_indices = (0..end).rev();
-		while let Some(idx) = bkwd_indices.next() {
-			if self.is_sentence_start(idx) {
-				start = Some(idx);
-				break
+		starts.sort_unstable();
+		starts.dedup();
+		starts
+	}
+	/// 'is' is the sentence under the cursor without the blanks after it (on those blanks: the blanks).
+	/// 'as' is the sentence with the blanks after it on its line, or with the blanks before it when none
+	/// follow; on blanks, the blanks with the sentence after them. Both ends are included.
+	pub fn text_obj_sentence(&mut self, pos: usize, _count: usize, bound: Bound) -> Option<(usize, usize)> {
+		let len = self.cursor.max;
+		let starts = self.sentence_starts();
+		let is_blank = |gr: Option<&str>| gr.is_some_and(|gr| gr == " " || gr == "\t");
+		let idx = starts.iter().rposition(|start| *start <= pos)?;
+		let start = starts[idx];
+		let next = starts.get(idx + 1).copied().unwrap_or(len);
+		// the last character of the sentence itself
+		let content_end = |this: &mut Self, start: usize, next: usize| -> usize {
+			let mut end = next.saturating_sub(1).max(start);
+			while end > start && this.grapheme_at(end).is_none_or(|gr| gr == " " || gr == "\t" || gr == "\n") {
+				end -= 1;
+			}
+			end
+		};
+		let end = content_end(self, start, next);
+		if self.grapheme_at(start) == Some("\n") {
+			// an empty line
+			return Some((start,start))
+		}
+		if pos > end {
+			// on the blanks between two sentences
+			let mut blanks_end = end + 1;
+			while is_blank(self.grapheme_at(blanks_end + 1)) {
+				blanks_end += 1;
+			}
+			if !is_blank(self.grapheme_at(end + 1)) {
+				return None
+			}
+			return match bound {
+				Bound::Inside => Some((end + 1,blanks_end)),
+				Bound::Around => {
+					let after = starts.get(idx + 2).copied().unwrap_or(len);
+					if next >= len { return Some((end + 1,blanks_end)) }
+					Some((end + 1,content_end(self, next, after)))
+				}
 			}
 		}
-		let start = start.unwrap_or(0);
-
-		if count > 1 {
-				if let Some((_,new_end)) = self.text_obj_sentence(end, count - 1, bound) {
-			end = new_end;
+		match bound {
+			Bound::Inside => Some((start,end)),
+			Bound::Around => {
+				let mut blanks_end = end;
+				while is_blank(self.grapheme_at(blanks_end + 1)) {
+					blanks_end += 1;
+				}
+				if blanks_end > end {
+					Some((start,blanks_end))
+				} else {
+					let mut blanks_start = start;
+					while blanks_start > 0 && is_blank(self.grapheme_at(blanks_start - 1)) {
+						blanks_start -= 1;
+					}
+					Some((blanks_start,end))
+				}
 			}
 		}
-
-		Some((start,end))
 	}
 	/// Get the span of the current `paragraph`
 	///
@@ -2654,6 +2738,53 @@ impl LineBuf {
 				} else {
 					MotionKind::On(pos)
 				}
+			}
+			MotionCmd(count,Motion::TextObj(TextObj::Sentence(dir))) => {
+				// ')' and '(': to the start of the next / of this or the previous sentence, `count` times
+				let starts = self.sentence_starts();
+				let cursor = self.cursor.get();
+				let mut pos = cursor;
+				for _ in 0..count {
+					match dir {
+						Direction::Forward => {
+							let next = starts.iter().copied().find(|start| *start > pos);
+							match next {
+								Some(start) => pos = start,
+								None => {
+									// no sentence after this one: on to the last character of the buffer,
+									// which an operator takes
+									let Some(last) = (0..self.cursor.max).rev().find(|i| self.grapheme_at(*i).is_some_and(|gr| gr != "\n")) else {
+										return MotionKind::Null
+									};
+									if last <= pos && !(verb.is_some() && last == pos) {
+										return MotionKind::Null
+									}
+									if verb.is_some() && last == cursor {
+										return MotionKind::Inclusive((last,last))
+									}
+									return MotionKind::Onto(last)
+								}
+							}
+						}
+						Direction::Backward => {
+							match starts.iter().rev().find(|start| **start < pos) {
+								Some(start) => pos = *start,
+								None => return MotionKind::Null
+							}
+						}
+					}
+				}
+				if pos == cursor {
+					return MotionKind::Null
+				}
+				MotionKind::On(pos)
+			}
+			MotionCmd(_count,Motion::TextObj(TextObj::WholeSentence(bound))) => {
+				let Some((start,end)) = self.text_obj_sentence(self.cursor.get(), 1, bound) else {
+					return MotionKind::Null
+				};
+				// both ends are part of the object
+				MotionKind::Inclusive((start,end))
 			}
 			MotionCmd(count,Motion::TextObj(text_obj)) => {
 				let Some((start,end)) = self.dispatch_text_obj(count, text_obj.clone()) else {
